@@ -98,7 +98,7 @@ def parse_ok(res):
 def main(tier, seed, replay=None):
     run = Run(PROP, tier, seed, "proof")
     rng = random.Random(seed)
-    info, problems = proof_gate(PROP, THEOREMS, extra_modules=["Model.All", "Proofs.DepfileSpec"], thorough=(tier == "thorough"))
+    info, problems = proof_gate_multi([PROP, "C15Indep"], thorough=(tier == "thorough"))
     for p in problems:
         run.tie("proof gate", p)
     drv = build_driver()
